@@ -362,7 +362,30 @@ def m_other_sequences(sx):
     """same-instance sequences for the other multi-verb handlers"""
     import geckolib.driver.protocol as P
     from sx.loader import STRUCT_SHIM as S
-    which = sx.choice("which", 5)
+    which = sx.choice("which", 6)
+    if which == 5:
+        # two handler instances in one process (two connections, a reconnect): each decodes its own message only
+        hs = [P.GeckoPartialStatusBlockProtocolHandler(None), P.GeckoPartialStatusBlockProtocolHandler(None)]
+        chs = []
+        for k, h in enumerate(hs):
+            n = 1 + sx.choice(f"changes{k}", 2)
+            ch = [(sx.word(f"pos{k}_{i}"), sx.bytes_(f"data{k}_{i}", 2)) for i in range(n)]
+            chs.append(ch)
+            m = P.GeckoPartialStatusBlockProtocolHandler.report_changes(None, ch, parms=PARMS)
+
+            class Sock:
+                def queue_send(self, *a):
+                    pass
+
+                def get_and_increment_sequence_counter(self, cmd):
+                    return 7
+            h._socket = Sock()
+            h.handle(m._content, SENDER)
+        for h, ch in zip(hs, chs):
+            sx.check(len(h.changes) == len(ch), "rt.seq.statp-instances-independent", lambda: f"{len(h.changes)} for {len(ch)}")
+            for (p0, d0), (p1, d1) in zip(ch, h.changes):
+                sx.check((p0 == p1) & (d0 == d1), "rt.seq.statp-change")
+        return
     if which == 3:
         # the asyncio client keeps one partial-update handler for the whole connection: the second message decodes to
         # its own changes only
